@@ -9,8 +9,8 @@ use indexmap::{IndexMap, IndexSet};
 use std::collections::VecDeque;
 use std::fmt::Debug;
 
-type K = u8;
-type V = u32;
+pub(crate) type K = u8;
+pub(crate) type V = u32;
 
 // ---------------------------------------------------------------- spec functions (indexmap.rs) ----
 pub fn im_has<W>(s: &[(K, W)], k: K) -> bool {
@@ -76,7 +76,7 @@ pub fn seq_filter_by<T: Clone>(s: &[T], keep: &dyn Fn(&T) -> bool) -> Vec<T> {
 }
 
 // ---------------------------------------------------------------- state generation / observation ----
-fn gen_map_with<W>(rng: &mut Rng, mut mk: impl FnMut(&mut Rng) -> W) -> IndexMap<K, W> {
+pub(crate) fn gen_map_with<W>(rng: &mut Rng, mut mk: impl FnMut(&mut Rng) -> W) -> IndexMap<K, W> {
     let mut m = IndexMap::new();
     let ops = rng.range(0, 28);
     for _ in 0..ops {
@@ -96,7 +96,7 @@ fn gen_map_with<W>(rng: &mut Rng, mut mk: impl FnMut(&mut Rng) -> W) -> IndexMap
     }
     m
 }
-fn gen_map(rng: &mut Rng) -> IndexMap<K, V> {
+pub(crate) fn gen_map(rng: &mut Rng) -> IndexMap<K, V> {
     gen_map_with(rng, |r| r.u32() % 1000)
 }
 fn gen_dq(rng: &mut Rng) -> VecDeque<u32> {
@@ -107,11 +107,11 @@ fn gen_map_dq(rng: &mut Rng) -> IndexMap<K, VecDeque<u32>> {
     gen_map_with(rng, gen_dq)
 }
 /// a key that is present with probability ~1/2 (when the map is non-empty)
-fn pick_key<W>(rng: &mut Rng, m: &IndexMap<K, W>) -> K {
+pub(crate) fn pick_key<W>(rng: &mut Rng, m: &IndexMap<K, W>) -> K {
     if !m.is_empty() && rng.bool() { *m.get_index(rng.below(m.len())).unwrap().0 } else { rng.u8() % 20 }
 }
 /// the view; all order-exposing observers must agree on it
-fn obs<W: Clone + PartialEq + Debug>(m: &IndexMap<K, W>) -> Result<Vec<(K, W)>, String> {
+pub(crate) fn obs<W: Clone + PartialEq + Debug>(m: &IndexMap<K, W>) -> Result<Vec<(K, W)>, String> {
     let v: Vec<(K, W)> = m.iter().map(|(k, v)| (*k, v.clone())).collect();
     ensure!(m.len() == v.len(), "len() {} != number of iterated entries {}", m.len(), v.len());
     for i in 0..v.len() {
@@ -123,10 +123,10 @@ fn obs<W: Clone + PartialEq + Debug>(m: &IndexMap<K, W>) -> Result<Vec<(K, W)>, 
     ensure!(m.get_index(v.len()).is_none(), "get_index(len) is Some");
     Ok(v)
 }
-fn pick_index<W>(rng: &mut Rng, m: &IndexMap<K, W>) -> usize {
+pub(crate) fn pick_index<W>(rng: &mut Rng, m: &IndexMap<K, W>) -> usize {
     rng.below(m.len() + 3)
 }
-fn pred(rng: &mut Rng) -> impl Fn(&u8) -> bool + Copy {
+pub(crate) fn pred(rng: &mut Rng) -> impl Fn(&u8) -> bool + Copy {
     let m = rng.range(1, 5) as u8;
     let r = rng.u8() % m;
     let neg = rng.chance(1, 4);
